@@ -17,6 +17,7 @@ Design rules
 from __future__ import annotations
 
 import random
+import warnings
 
 HEADER = '''\
 import abc, asyncio, collections, contextlib, dataclasses, enum, functools, itertools, os, sys, typing
@@ -117,10 +118,6 @@ BASES = ["Base", "object", "Ctx", "Exception", "dict", "list", "int", "str", "tu
          "typing.Sequence[int]", "typing.NamedTuple_", "enum.Enum", "enum.IntEnum", "enum.Flag", "enum.StrEnum", "TypedDict",
          "NamedTuple", "Color_", "BaseException", "type", "Meta", "tuple[int, str]", "contextlib.AbstractContextManager"]
 CLASS_KEYWORDS = ["metaclass=Meta", "metaclass=abc.ABCMeta", "metaclass=type", "total=False"]
-
-
-class Budget(Exception):
-    pass
 
 
 class Fuzz:
@@ -448,8 +445,6 @@ class Fuzz:
         return f"({self.pick(['w1', 'w2'])} := {self.expr(d)})"
 
     def e_await(self, d):
-        if self.in_comp_iter and False:
-            return self.atom()
         self.f("expr:await")
         return f"(await ({self.expr(d)}))"
 
@@ -965,12 +960,9 @@ class Fuzz:
         return [ind + self.pick([
             "import os.path as osp", "import os, sys as system", "from os import path, sep as s_", "import nonexistent_mod_", "from os import nope_",
             "from typing import List, Dict as D_", "import collections.abc", "from . import sibling_", "from .. import up_", "from .rel_ import name_",
-            "import xml.etree.ElementTree as ET", "from __future__ import annotations_".replace("annotations_", "division") if False else "import json",
+            "import xml.etree.ElementTree as ET", "import json",
             "from collections import *" if not self.in_func else "import collections as c_", "import os.nope_.deeper_", "from os.path import (join,\n" + ind + "    split)",
         ])]
-
-    def s_global(self, ind) -> list:
-        return []
 
     def s_type_alias(self, ind):
         self.f("stmt:type-alias-pep695")
@@ -1081,7 +1073,7 @@ class Fuzz:
             tparams = f"[{self.pick(TYPE_PARAMS)}]"
         ret = ""
         if self.chance(0.55):
-            ret = f" -> {self.annotation(lazy or bool(tparams) and False)}"
+            ret = f" -> {self.annotation(lazy)}"
             self.f("def:return-annotation")
         sig = f"{ind}{'async ' if is_async else ''}def {name}{tparams}({self.params(method, lazy)}){ret}:"
         out.append(sig)
@@ -1134,7 +1126,7 @@ class Fuzz:
         if kind == "dataclass":
             decs.append(self.pick(["dataclass", "dataclass(frozen=True)", "dataclasses.dataclass(order=True)", "dataclass(slots=True)", "dataclass(kw_only=True)"]))
         elif kind == "enum":
-            bases.append(self.pick(["enum.Enum", "enum.IntEnum", "enum.Flag", "enum.StrEnum", "Color" if False else "enum.Enum", "str, enum.Enum", "int, enum.Enum"]))
+            bases.append(self.pick(["enum.Enum", "enum.IntEnum", "enum.Flag", "enum.StrEnum", "enum.Enum", "str, enum.Enum", "int, enum.Enum"]))
         elif kind == "protocol":
             bases.append(self.pick(["Protocol", "Protocol[T]", "typing.Protocol"]))
             if self.chance(0.3):
@@ -1160,7 +1152,7 @@ class Fuzz:
         else:
             if self.chance(0.6):
                 bases.append(self.pick(["Base", "object", "Ctx", "Base, Ctx", "dict", "list", "int", "str", "tuple", "abc.ABC", "dict[str, int]",
-                                        "collections.UserDict", "typing.Sequence[int]" if False else "Base", "contextlib.AbstractContextManager", "tuple[int, str]",
+                                        "collections.UserDict", "Base", "contextlib.AbstractContextManager", "tuple[int, str]",
                                         "collections.namedtuple('NT', 'a b')", "typing.NamedTuple('NT2', [('a', int)])"]))
             if lazy and self.chance(0.3):
                 bases = [self.pick(["undef1", "1", "Later", "later_fn", "Base()", "Color", "g1", "int, str", "Base, Base", "bool", "type(None)", "*g2", "Optional[int]"])]
@@ -1168,7 +1160,7 @@ class Fuzz:
                 if self.chance(0.3):
                     kws.append(self.pick(["metaclass=undef1", "metaclass=1", "nope=1", "**g1"]))
             if self.chance(0.2) and not decs:
-                decs.append(self.pick(["deco", "typing.final", "deco_args(1)", "functools.total_ordering" if False else "deco"]))
+                decs.append(self.pick(["deco", "typing.final", "deco_args(1)", "deco"]))
                 self.f("decorator:class")
         bases = [b for b in bases if b]
         head = f"{ind}class {name}{tparams}" + (f"({', '.join(bases + kws)})" if bases or kws else "") + ":"
@@ -1195,7 +1187,7 @@ class Fuzz:
                     ann = self.pick([a for a in SAFE_ANN if not a.startswith(("Final", "ClassVar", "*", "P.", "Self")) and a not in MALFORMED_STR_ANN and a not in NOT_WRAPPABLE]
                                     if not cls_lazy else SAFE_ANN + LAZY_ANN)
                     if kind == "typeddict" and self.chance(0.25):
-                        ann = self.pick(["Required[int]", "NotRequired[str]", "typing.ReadOnly[int]" if False else "NotRequired[list[int]]"])
+                        ann = self.pick(["Required[int]", "NotRequired[str]", "NotRequired[list[int]]"])
                     dflt = f" = {self.pick(SAFE_DEFAULTS)}" if kind == "namedtuple" and self.chance(0.3) and fld == flds[-1] else ""
                     body.append(f"{inner}{fld}: {ann}{dflt}")
             else:
@@ -1252,7 +1244,6 @@ class Fuzz:
             if r < 0.14:
                 self.f("class:property")
                 out = self.funcdef(ind, "prop", "self", ["property"])
-                out = [l for l in out if "yield" not in l or True]
                 if self.chance(0.5):
                     self.f("class:property-setter")
                     out += [f"{ind}@prop.setter", f"{ind}def prop(self, value{self.pick(['', ': int', ': ' + chr(39) + 'Later' + chr(39)])}):",
@@ -1271,7 +1262,7 @@ class Fuzz:
                 name = self.pick(["__init__", "__eq__", "__hash__", "__len__", "__iter__", "__getitem__", "__call__", "__enter__", "__exit__", "__bool__",
                                   "__add__", "__radd__", "__iadd__", "__contains__", "__getattr__", "__setattr__", "__repr__", "__lt__", "__aiter__",
                                   "__anext__", "__await__", "__class_getitem__", "__init_subclass__", "__set_name__", "__get__", "__post_init__",
-                                  "__match_args__" if False else "__index__", "__del__", "__missing__", "__next__", "__setitem__", "__delitem__"])
+                                  "__index__", "__del__", "__missing__", "__next__", "__setitem__", "__delitem__"])
                 return self.funcdef(ind, name, "cls" if name in ("__class_getitem__", "__init_subclass__") else "self")
             if r < 0.58:
                 self.f("class:method-odd-first-arg")
@@ -1280,7 +1271,7 @@ class Fuzz:
             if self.chance(0.25):
                 self.f("decorator:method")
                 decs = [self.pick(["deco", "deco_args()", "typing.final", "functools.lru_cache(maxsize=None)", "abc.abstractmethod", "functools.cached_property",
-                                   "contextlib.contextmanager", "typing.overload" if False else "deco", "functools.wraps(deco)"])]
+                                   "contextlib.contextmanager", "deco", "functools.wraps(deco)"])]
             return self.funcdef(ind, self.pick(["meth", "run", "other"] + ([] if class_kind == "namedtuple" else ["fa"])), "self", decs)
 
     # ------------------------------------------------------------------ module
@@ -1313,9 +1304,6 @@ class Fuzz:
                     decs = ["contextlib.contextmanager"]
                 name = f"f{i}"
                 items.append(self.funcdef("", name, decorators=decs, toplevel=True))
-                if "contextlib.contextmanager" in decs:
-                    # must be a (sync) generator function to be usable; harmless otherwise
-                    pass
             elif r < 0.82:
                 items.append(self.classdef("", f"C{i}", lazy=False))
             elif r < 0.90:
@@ -1385,7 +1373,9 @@ def gen_program(rng: random.Random, budget=None):
             rejected += 1
             continue
         try:
-            compile(src, "<fuzz>", "exec", dont_inherit=True)
+            with warnings.catch_warnings():
+                warnings.simplefilter("ignore")  # SyntaxWarning for `1()` etc. is the point of the ill-typed forms
+                compile(src, "<fuzz>", "exec", dont_inherit=True)
         except (SyntaxError, ValueError, OverflowError, MemoryError, RecursionError):
             rejected += 1
             continue
